@@ -72,6 +72,15 @@ pub fn scene_with_key(rng: &mut StdRng, device_cose: Option<CoseKey>) -> Option<
     scene_from(pki, other_pki, mdoc, device_key, alg)
 }
 
+/// honest session + one honest response for a document issued to the given device key
+pub fn scene_with_signing_key(rng: &mut StdRng, device_key: SigningKey) -> Option<Scene> {
+    let pki = Pki::generate(rng);
+    let other_pki = Pki::generate(rng);
+    let alg = [DigestAlgorithm::SHA256, DigestAlgorithm::SHA384, DigestAlgorithm::SHA512][rng.gen_range(0..3)];
+    let mdoc = issue_with_key(&pki, MDL, core_namespaces(rng), alg, false, cose_key_of(&device_key));
+    scene_from(pki, other_pki, mdoc, device_key, alg)
+}
+
 pub fn scene_from(pki: Pki, other_pki: Pki, mdoc: isomdl::issuance::Mdoc, device_key: SigningKey, alg: DigestAlgorithm) -> Option<Scene> {
     let e = establish(documents_of(vec![mdoc]), None, &request_all(), iaca_registry(&pki), Default::default()).ok()?;
     let mut dev = e.dev;
@@ -154,7 +163,8 @@ pub enum Alt {
     // C05
     DevSigFlip(usize, u8), DevSigOtherKey, DevNsChange, DevMac, DevDocTypeOther, DevProtectedAlg,
     /// deviceSignature carrying an ATTACHED payload, signed by the issued device key over that payload:
-    /// 0 = this session's DeviceAuthenticationBytes, 1 = the DeviceAuthenticationBytes of another session, 2 = arbitrary bytes
+    /// 0 = this session's DeviceAuthenticationBytes, 1 = the DeviceAuthenticationBytes of another session, 2 = arbitrary bytes,
+    /// 3 = the EMPTY byte string (h'', not nil), signed over the Sig_structure with that empty payload
     DevAttached(u8),
     // C03: a document signer certificate NOT signed by the IACA but naming it (issuer name, authority key identifier,
     // and with `true` also the genuine certificate's serial number and subject), with the MSO signed by the forger's key
@@ -170,8 +180,11 @@ pub enum Alt {
     MsoNameAsBytes(u8),
     /// two mDL documents: the first authentic but disclosing only the AAMVA namespace, the second with altered core items
     DocumentSplit(u8),
-    /// device signature bytes that are not a 64-byte r||s in range: 63, 65, 32, 0 bytes, 64 zero bytes
+    /// device signature bytes that are not a 64-byte r||s in range: 63, 65, 32, 0 bytes, 64 zero bytes;
+    /// 5 / 6: an authentic signature whose r / s starts with a zero octet, that octet deleted
     DevSigShape(u8),
+    /// the item at (ns, item) altered AND the document's `errors` listing that namespace and identifier (as if not returned)
+    ErrorsShadow(usize, usize),
 }
 
 pub fn apply(alt: &Alt, sc: &Scene, pt: &mut Value, rng: &mut StdRng) {
@@ -246,6 +259,19 @@ pub fn apply(alt: &Alt, sc: &Scene, pt: &mut Value, rng: &mut StdRng) {
                 items.insert(if *before { pos } else { pos + 1 }, forged);
             }
         }
+        Alt::ErrorsShadow(n, i) => {
+            let (mut ns_name, mut id) = (String::new(), String::new());
+            {
+                let nss = namespaces_mut(pt);
+                let nlen = nss.len();
+                ns_name = nss[*n % nlen].0.as_text().unwrap_or_default().to_string();
+            }
+            edit_item(pt, *n, *i, |m| { for (k, v) in m.iter_mut() {
+                if k.as_text() == Some("elementIdentifier") { id = v.as_text().unwrap_or_default().to_string(); }
+                if k.as_text() == Some("elementValue") { *v = Value::Text("altered, and listed as an error".into()); } } });
+            let errs = Value::Map(vec![(text(&ns_name), Value::Map(vec![(text(&id), Value::Integer(0.into()))]))]);
+            if let Value::Map(d) = doc_mut(pt) { d.retain(|(k, _)| k.as_text() != Some("errors")); d.push((text("errors"), errs)); }
+        }
         Alt::ItemTwice(n, i) => {
             let nss = namespaces_mut(pt);
             let nlen = nss.len();
@@ -290,7 +316,7 @@ pub fn apply(alt: &Alt, sc: &Scene, pt: &mut Value, rng: &mut StdRng) {
                 0 => (sc.de_bytes.clone(), sc.erk_bytes.clone()),
                 _ => { let mut d = sc.de_bytes.clone(); let l = d.len(); d[l - 1] ^= 1; (d, sc.erk_bytes.clone()) }
             };
-            let payload = if *kind == 2 { (0..40).map(|_| rng.gen()).collect::<Vec<u8>>() } else {
+            let payload = if *kind == 3 { vec![] } else if *kind == 2 { (0..40).map(|_| rng.gen()).collect::<Vec<u8>>() } else {
                 let da = arr(vec![text("DeviceAuthentication"),
                     arr(vec![Value::Tag(24, Box::new(bytes(&de))), Value::Tag(24, Box::new(bytes(&erk))), Value::Null]),
                     text(MDL), Value::Tag(24, Box::new(bytes(&dns)))]);
@@ -361,6 +387,27 @@ pub fn apply(alt: &Alt, sc: &Scene, pt: &mut Value, rng: &mut StdRng) {
             edit_item(pt, core_idx, 0, |m| { for (k, v) in m.iter_mut() { if k.as_text() == Some("elementValue") { *v = Value::Text("forged".into()); } } });
             let second = doc_mut(pt).clone();
             if let Some(Value::Array(docs)) = map_get_mut(pt, "documents") { *docs = vec![first, second]; }
+        }
+        Alt::DevSigShape(k) if *k >= 5 => {
+            // an AUTHENTIC signature over this session's DeviceAuthentication whose r (5) / s (6) begins with a zero octet
+            // (found by signing with fresh nonces), written with that octet deleted: 63 octets, not an ES256 signature
+            use p256::ecdsa::signature::RandomizedSigner;
+            let dns = {
+                let d = doc_mut(pt);
+                match map_get_mut(map_get_mut(d, "deviceSigned").unwrap(), "nameSpaces") { Some(Value::Tag(24, b)) => b.as_bytes().cloned().unwrap_or_default(), _ => vec![] }
+            };
+            let da = arr(vec![text("DeviceAuthentication"),
+                arr(vec![Value::Tag(24, Box::new(bytes(&sc.de_bytes))), Value::Tag(24, Box::new(bytes(&sc.erk_bytes))), Value::Null]),
+                text(MDL), Value::Tag(24, Box::new(bytes(&dns)))]);
+            let dab = to_bytes(&Value::Tag(24, Box::new(bytes(&to_bytes(&da)))));
+            let prot = device_sig_mut(pt)[0].as_bytes().cloned().unwrap_or_default();
+            let tbs = to_bytes(&arr(vec![text("Signature1"), bytes(&prot), bytes(&[]), bytes(&dab)]));
+            let at = if *k == 5 { 0 } else { 32 };
+            for _ in 0..20_000 {
+                let s: Signature = sc.device_key.sign_with_rng(rng, &tbs);
+                let mut b = s.to_vec();
+                if b[at] == 0 { b.remove(at); device_sig_mut(pt)[3] = bytes(&b); break; }
+            }
         }
         Alt::DevSigShape(k) => {
             let sig = device_sig_mut(pt)[3].as_bytes().cloned().unwrap_or_default();
@@ -583,6 +630,8 @@ pub fn registries(sc: &Scene) -> Vec<(&'static str, TrustAnchorRegistry)> {
         ("empty", TrustAnchorRegistry::default()),
         ("unrelated-root", iaca_registry(&sc.other_pki)),
         ("right-root-reader-purpose", registry(vec![(sc.pki.iaca.clone(), TrustPurpose::ReaderCa)])),
+        ("unrelated-iaca-then-right-root-as-readerca", registry(vec![(sc.other_pki.iaca.clone(), TrustPurpose::Iaca), (sc.pki.iaca.clone(), TrustPurpose::ReaderCa)])),
+        ("readerca-then-right-root-as-readerca", registry(vec![(sc.other_pki.reader_ca.clone(), TrustPurpose::ReaderCa), (sc.pki.iaca.clone(), TrustPurpose::ReaderCa), (sc.other_pki.iaca.clone(), TrustPurpose::Iaca)])),
         ("mixed", registry(vec![(sc.other_pki.iaca.clone(), TrustPurpose::Iaca), (sc.pki.iaca.clone(), TrustPurpose::ReaderCa), (sc.pki.iaca.clone(), TrustPurpose::Iaca)])),
     ]
 }
@@ -611,19 +660,19 @@ pub fn c03_alts(rng: &mut StdRng, thorough: bool) -> Vec<Alt> {
     v
 }
 pub fn c04_alts(rng: &mut StdRng, thorough: bool) -> Vec<Alt> {
-    let mut v = vec![Alt::None, Alt::ItemMove, Alt::ItemInject, Alt::ItemDuplicateOtherNs, Alt::NamespaceRename, Alt::DocumentTwice(true), Alt::DocumentTwice(false), Alt::DocumentSplit(0), Alt::DocumentSplit(1), Alt::DocumentSplit(2)];
+    let mut v = vec![Alt::None, Alt::ItemMove, Alt::ItemInject, Alt::ItemDuplicateOtherNs, Alt::NamespaceRename, Alt::DocumentTwice(true), Alt::DocumentTwice(false), Alt::DocumentSplit(0), Alt::DocumentSplit(1), Alt::DocumentSplit(2), Alt::ErrorsShadow(0, 0), Alt::ErrorsShadow(1, 1)];
     let n = if thorough { 40 } else { 4 };
     for _ in 0..n {
         let (a, b) = (rng.gen_range(0..2), rng.gen_range(0..6));
         v.extend([Alt::ItemValue(a, b), Alt::ItemIdentifier(a, b), Alt::ItemRandom(a, b), Alt::ItemDigestId(a, b),
-                  Alt::ItemShadow(true, a, b), Alt::ItemShadow(false, a, b), Alt::ItemTwice(a, b)]);
+                  Alt::ItemShadow(true, a, b), Alt::ItemShadow(false, a, b), Alt::ItemTwice(a, b), Alt::ErrorsShadow(a, b)]);
     }
     v
 }
 pub fn c05_alts(rng: &mut StdRng, thorough: bool) -> Vec<Alt> {
     let mut v = vec![Alt::None, Alt::DevSigOtherKey, Alt::DevNsChange, Alt::DevMac, Alt::DevDocTypeOther, Alt::DevProtectedAlg,
-        Alt::DevAttached(0), Alt::DevAttached(1), Alt::DevAttached(2),
-        Alt::DevSigShape(0), Alt::DevSigShape(1), Alt::DevSigShape(2), Alt::DevSigShape(3), Alt::DevSigShape(4),
+        Alt::DevAttached(0), Alt::DevAttached(1), Alt::DevAttached(2), Alt::DevAttached(3),
+        Alt::DevSigShape(5), Alt::DevSigShape(6), Alt::DevSigShape(0), Alt::DevSigShape(1), Alt::DevSigShape(2), Alt::DevSigShape(3), Alt::DevSigShape(4),
         Alt::MsoNameAsBytes(0), Alt::MsoNameAsBytes(1), Alt::MsoNameAsBytes(2), Alt::MsoNameAsBytes(3)];
     let n = if thorough { 200 } else { 10 };
     for _ in 0..n { v.push(Alt::DevSigFlip(rng.gen_range(0..64), rng.gen())); }
